@@ -20,7 +20,7 @@ From Coq Require Import List Arith Bool Lia.
 From LMBase Require Import Res ListX.
 From Coq Require Import ZArith.
 From LMBase Require Import IEEE.
-From LMScan Require Import ScanModel ScanLemmas ScanProofs MaxProofs ScanCheck CheckProofs ScanConcrete F32Order ConcreteProofs.
+From LMScan Require Import ScanModel ScanLemmas ScanProofs MaxProofs ScanCheck CheckProofs ScanConcrete F32Order ConcreteProofs DiscLink.
 Import ListNotations.
 
 (* (1) The general statement: max() after any k calls of next().  Y = the hits consumed
@@ -226,6 +226,30 @@ Proof.
   - intros i s Hi Hs Hg. apply (H (i, s)). apply in_qual. auto.
 Qed.
 
+(* and it raises no false alarm: every answer with the property passes *)
+Theorem C03_check_complete :
+  forall (scores : list Z) (thr : Z) (consumed : list Z) (result : option (Z * Z)),
+    match result with
+    | None =>
+        forall i s, (0 <= i)%Z -> nth_error scores (Z.to_nat i) = Some s ->
+                    F32.ge (F32.of_bits s) (F32.of_bits thr) = true -> In i consumed
+    | Some (p, x) =>
+        ((0 <= p)%Z /\ nth_error scores (Z.to_nat p) = Some x /\
+         F32.ge (F32.of_bits x) (F32.of_bits thr) = true /\ ~ In p consumed) /\
+        (forall i s, (0 <= i)%Z -> nth_error scores (Z.to_nat i) = Some s ->
+                     F32.ge (F32.of_bits s) (F32.of_bits thr) = true -> ~ In i consumed ->
+                     F32.ge (F32.of_bits x) (F32.of_bits s) = true)
+    end ->
+    check_c03 scores thr consumed result = true.
+Proof.
+  intros scores thr consumed result H. apply check_c03_complete.
+  destruct result as [[p x]|].
+  - destruct H as ((Hp & Hs & Hg & Hn) & Hd). split; [split; [apply in_qual; auto|exact Hn]|].
+    intros [i s] Hq Hc. apply in_qual in Hq. destruct Hq as (Hi & Hs' & Hg'). simpl in *.
+    apply (Hd i s); auto.
+  - intros [i s] Hq. apply in_qual in Hq. destruct Hq as (Hi & Hs & Hg). simpl. apply (H i s); auto.
+Qed.
+
 (* (6) The concrete binary32 scanner (the extracted text replayed against the
    implementation, every dispatcher arm): the order hypotheses are theorems about
    Flocq's comparison (F32Order.v) and the layout hypotheses are discharged for every
@@ -273,6 +297,96 @@ Proof.
     destruct Hp as (A & Hx & D & E). split; [exact A|]. split; [exact Hx|]. split; [exact D|].
     intros Hk i Hi He. subst k. simpl in Ht. inversion Ht; subst Y s.
     apply (E eq_refl i Hi); auto.
+Qed.
+
+(* the same with the scores written out (score_def: left-to-right binary32 sum of the
+   cells pssm[j][s[i+j]]; dscore_def: saturating sum of the discretised cells) *)
+Theorem C03_concrete_max_explicit :
+  forall (K C : nat) (pssm : list (list F32.t)) (sq : list nat) (wrap : nat) (v : cenv)
+         (am : arm) (thr : F32.t) (B : nat),
+    wf_input K C pssm sq wrap ->
+    c_env K C pssm sq wrap = Ok v ->
+    1 <= B ->
+    (forall i, i + length pssm <= length sq -> F32.ge (score_def K sq pssm i) thr = true ->
+               c_scale (ce_dm v) thr <= dscore_def K sq (d_data (ce_dm v)) i) ->
+    (forall i j, i + length pssm <= length sq -> j + length pssm <= length sq ->
+                 F32.ge (score_def K sq pssm i) (score_def K sq pssm j) = true ->
+                 c_scale (ce_dm v) (score_def K sq pssm j) <= dscore_def K sq (d_data (ce_dm v)) i) ->
+    (forall i, i + length pssm <= length sq -> F32.ge (score_def K sq pssm i) thr = true ->
+               c_scale (ce_dm v) thr <= c_scale (ce_dm v) (score_def K sq pssm i)) ->
+    forall k : nat,
+    exists (Y : list (nat * F32.t)) (r : option (nat * F32.t)),
+      ce_take_max v am thr B k = Ok (Y, Ok r) /\
+      match r with
+      | None =>
+          forall i, i + length pssm <= length sq -> F32.ge (score_def K sq pssm i) thr = true ->
+                    In i (map fst Y)
+      | Some (p, x) =>
+          (p + length pssm <= length sq /\ F32.ge (score_def K sq pssm p) thr = true /\ ~ In p (map fst Y)) /\
+          x = score_def K sq pssm p /\
+          (forall i, i + length pssm <= length sq -> ~ In i (map fst Y) ->
+                     F32.is_nan (score_def K sq pssm i) = false -> F32.ge x (score_def K sq pssm i) = true) /\
+          (k = 0 -> forall i, i + length pssm <= length sq ->
+                     F32.eq (score_def K sq pssm i) x = true -> i <= p)
+      end.
+Proof.
+  intros K C pssm sq wrap v am thr B Hwf Henv HB Hc1 Hc2 Hc3 k.
+  pose proof (env_Lm K C pssm sq wrap v Henv) as HLm.
+  assert (HM : 1 <= length pssm) by (destruct Hwf as (_ & _ & HM & _); exact HM).
+  assert (Hiff : forall i, i < ce_Lm v <-> i + length pssm <= length sq) by (intros i; rewrite HLm; lia).
+  pose proof (env_cscore_spec K C pssm sq wrap v Hwf Henv) as Hs.
+  pose proof (env_cdscore_spec_i K C pssm sq wrap v Hwf Henv) as Hd.
+  destruct (C03_concrete_max K C pssm sq wrap v am thr B Hwf Henv HB) with (k := k)
+    as (Y & r & Ht & _ & Hp).
+  { intros i Hi Hg. rewrite (Hs i Hi) in Hg. rewrite (Hd i Hi). apply Hc1; auto. now apply Hiff. }
+  { intros i j Hi Hj Hg. rewrite (Hs i Hi), (Hs j Hj) in Hg. rewrite (Hs j Hj), (Hd i Hi).
+    apply Hc2; auto; now apply Hiff. }
+  { intros i Hi Hg. rewrite (Hs i Hi) in Hg. rewrite (Hs i Hi). apply Hc3; auto. now apply Hiff. }
+  exists Y, r. split; [exact Ht|].
+  destruct r as [[p x]|].
+  - destruct Hp as ((A1 & A2 & A3) & Hx & D & E).
+    rewrite (Hs p A1) in A2, Hx.
+    split; [split; [now apply Hiff|auto]|]. split; [exact Hx|]. split.
+    + intros i Hi Hn Hnan. apply Hiff in Hi. rewrite <- (Hs i Hi). rewrite <- (Hs i Hi) in Hnan. now apply D.
+    + intros Hk i Hi He. apply Hiff in Hi. rewrite <- (Hs i Hi) in He. now apply (E Hk).
+  - intros i Hi Hg. apply Hiff in Hi. rewrite <- (Hs i Hi) in Hg. now apply Hp.
+Qed.
+
+(* and with the three numeric hypotheses reduced to property C08's own two conditions,
+   through the theorems of the discretisation group (coq/disc, C08_scale_monotone_f32:
+   scale is monotone in binary32 when the sign bit of the factor is clear): (a) the
+   factor's sign bit is clear (set only for the signed-zero matrices of known finding
+   F14b), (b) C08's main clause at every position: byte score >= byte image of the score *)
+Theorem C03_concrete_max_c08 :
+  forall (K C : nat) (pssm : list (list F32.t)) (sq : list nat) (wrap : nat) (v : cenv)
+         (am : arm) (thr : F32.t) (B : nat),
+    wf_input K C pssm sq wrap ->
+    c_env K C pssm sq wrap = Ok v ->
+    1 <= B ->
+    factor_sign_clear (ce_dm v) = true ->
+    (forall i, i + length pssm <= length sq ->
+               c_scale (ce_dm v) (score_def K sq pssm i) <= dscore_def K sq (d_data (ce_dm v)) i) ->
+    forall k : nat,
+    exists (Y : list (nat * F32.t)) (r : option (nat * F32.t)),
+      ce_take_max v am thr B k = Ok (Y, Ok r) /\
+      match r with
+      | None =>
+          forall i, i + length pssm <= length sq -> F32.ge (score_def K sq pssm i) thr = true ->
+                    In i (map fst Y)
+      | Some (p, x) =>
+          (p + length pssm <= length sq /\ F32.ge (score_def K sq pssm p) thr = true /\ ~ In p (map fst Y)) /\
+          x = score_def K sq pssm p /\
+          (forall i, i + length pssm <= length sq -> ~ In i (map fst Y) ->
+                     F32.is_nan (score_def K sq pssm i) = false -> F32.ge x (score_def K sq pssm i) = true) /\
+          (k = 0 -> forall i, i + length pssm <= length sq ->
+                     F32.eq (score_def K sq pssm i) x = true -> i <= p)
+      end.
+Proof.
+  intros K C pssm sq wrap v am thr B Hwf Henv HB Hsign Hmain k.
+  apply (C03_concrete_max_explicit K C pssm sq wrap v am thr B Hwf Henv HB).
+  - intros i Hi Hg. exact (c_scale_transfer (ce_dm v) _ thr _ Hsign (Hmain i Hi) Hg).
+  - intros i j Hi Hj Hg. exact (c_scale_transfer (ce_dm v) _ _ _ Hsign (Hmain i Hi) Hg).
+  - intros i Hi Hg. exact (c_scale_mono (ce_dm v) _ thr Hsign Hg).
 Qed.
 
 Check C03_max_none_iff :
@@ -386,6 +500,18 @@ Example C03_nonvacuous_runs :
   Toy.run 3 0 0 = Ok (Some (5, 9)).
 Proof. vm_compute. repeat split; reflexivity. Qed.
 
+(* the numeric hypotheses are needed: with a byte score that under-estimates position 5
+   (2 instead of 5) while scale 9 = 4, max() prunes it and answers with the other maximum
+   at position 1; with byte scores all 0 it finds nothing - the model follows the code *)
+Example C03_hypotheses_needed :
+  max_after Toy.geb Toy.gtb Toy.eqb Toy.is_nan Toy.scale Toy.score_position
+            (fun a e => Ok (block_spec 4 Toy.Lm 3 (fun i => if i =? 5 then 2 else Toy.dscore i) a e))
+            4 Toy.Lm 2 7 0 = Ok (Some (1, 9)) /\
+  max_after Toy.geb Toy.gtb Toy.eqb Toy.is_nan Toy.scale Toy.score_position
+            (fun a e => Ok (block_spec 4 Toy.Lm 3 (fun _ => 0) a e))
+            4 Toy.Lm 2 7 0 = Ok None.
+Proof. vm_compute. split; reflexivity. Qed.
+
 (* The concrete binary32 scanner on a real instance (ConcreteProofs.Ex: a 3-column motif
    with a -inf wildcard column, 40 symbols = 2 striped rows, threshold 1.0): every
    hypothesis of C03_concrete_max holds (the numeric ones by computation over all
@@ -426,3 +552,11 @@ Example C03_concrete_runs :
   ce_max_after Ex.env Avx2 (F32.of_bits 1082130433) 1 0 = Ok None /\
   ce_max_after Ex.env Avx2 Ex.thr 1 17 = Ok None.
 Proof. vm_compute. repeat split; reflexivity. Qed.
+
+(* ... and the two C08 conditions of C03_concrete_max_c08 hold on that instance *)
+Example C03_concrete_c08_nonvacuous :
+  factor_sign_clear (ce_dm Ex.env) = true /\
+  (forall i, i + length Ex.pssm <= length Ex.sq ->
+             c_scale (ce_dm Ex.env) (score_def 5 Ex.sq Ex.pssm i)
+             <= dscore_def 5 Ex.sq (d_data (ce_dm Ex.env)) i).
+Proof. split; [exact Ex_sign_clear|exact Ex_main]. Qed.
